@@ -303,6 +303,18 @@ def build(case):
                  "statio": ["dyn_loss", "norm_loss", "boundary_loss", "observations"],
                  "nonstatio": ["dyn_loss", "norm_loss", "boundary_loss", "observations", "initial_condition"]}[base]
         pr["weights"] = {n: Fraction(rng.choice([1, 2, 3, 4, 1]), rng.choice([1, 2])) for n in names}
+    if case.get("wvariant"):
+        # the same problem with other weights (C20: a second loss object interleaved with the first)
+        def bump(v):
+            if v is None or v == "vector" or (isinstance(v, dict) and "dict_vector" in v):
+                return v
+            if isinstance(v, dict):
+                return {"dict": {k: q(Fraction(x) + 1) for k, x in v["dict"].items()}}
+            return q(Fraction(v) + 1)
+        if issys:
+            pr["wspec"] = {k: bump(v) for k, v in pr["wspec"].items()}
+        else:
+            pr["weights"] = {k: v + 1 for k, v in pr["weights"].items()}
     return pr
 
 
@@ -340,9 +352,10 @@ def exact_ok(pr):
     names = [k for k, _ in pr["params"]]
     cmax = max([abs(x) for r in pr["pts"] for x in r] + [Fraction(1)])
     smax = []
+    alt = dict(pr["params_alt"])
     for k, v in pr["params"]:
         rd = pr["readers"][k]
-        vals = [abs(sum(Fraction(c) * x for c, x in zip(rd, v)))]
+        vals = [abs(sum(Fraction(c) * x for c, x in zip(rd, v))), abs(sum(Fraction(c) * x for c, x in zip(rd, alt[k])))]
         for rows in [pr["param_rows"] or []]:
             for kk, rs in rows:
                 if kk == k:
@@ -800,7 +813,7 @@ def _key_sets(rng, tier):
     shapes = ["()", "(1,)", "(k,)"]
     out = []
     for K in (1, 2, 3):
-        reps = 1 if tier == "quick" else 3
+        reps = 2 if tier == "quick" else 6
         for _ in range(reps):
             ks = []
             for name in KEY_POOL[:K]:
@@ -830,8 +843,6 @@ def gen_cases(rng, tier):
             kinds = singles + ["sys_ode", "sys_statio" if rng.random() < 0.5 else "sys_nonstatio"]
             if quick:
                 kinds = rng.sample(singles, 2) + [rng.choice(["sys_ode", "sys_statio", "sys_nonstatio"])]
-                if sub is not None and len(names) == 3 and len(sub) in (1, 2) and rng.random() < 0.5:
-                    continue
             for kind in kinds:
                 base = kind.replace("sys_", "")
                 B = rng.choice([2, 4]) if sub else rng.choice([1, 2, 4])
